@@ -67,9 +67,9 @@ CLAIMS = {
         design_ref="6/C08"),
     "C10": dict(
         engine="NixMeta",
-        technique="TLA+ spec NixMeta (typed value lists, dictionary view) checked by TLC + replay of every exported transition against Section / Property with reopen",
-        text="NixMeta models a section's properties (dtype fixed at creation, value token lists, optional attributes) and subsections; TLC checks TypeOK, Homogeneous, DictConsistent, RefusedUnchanged, DtypeFixed, ExtendIsConcat, WriteFrame over all histories of create / assign / extend / clear / delete / dictionary-style calls with homogeneous and mixed candidate lists; every transition is replayed with concretisations that pit True/False against 1/0, 1 against 1.0, int64 extremes, NaN, empty and non-ASCII text, list / tuple / ndarray / scalar containers; values, types, attributes and the dictionary interface are read through several long-lived handles and after reopening read-only and read-write.",
-        note="Trusted: TLC; two property names, lists up to 5 values, depth 4; text values are never passed as NumPy arrays; len(section) follows the code (number of properties).",
+        technique="TLA+ spec NixMeta (typed value lists, dictionary view) checked by TLC + replay of every exported transition against Section / Property with reopen + trace validation of recorded random executions by TLC (NixMetaTrace)",
+        text="NixMeta models a section's properties (dtype fixed at creation, value token lists, optional attributes) and subsections; TLC checks TypeOK, Homogeneous, DictConsistent, RefusedUnchanged, DtypeFixed, ExtendIsConcat, WriteFrame over all histories of create / assign / extend / clear / delete / dictionary-style calls with homogeneous and mixed candidate lists; every transition is replayed with concretisations that pit True/False against 1/0, 1 against 1.0, int64 extremes, NaN, empty and non-ASCII text, list / tuple / ndarray / scalar containers; values, types, attributes and the dictionary interface are read through several long-lived handles and after reopening read-only and read-write. In the other direction, random executions over 6 names and longer histories are recorded from the library (call, outcome class, complete projected state per line) and NixMetaTrace.tla has to explain every line; a corrupted copy of the log must be rejected at the corrupted line.",
+        note="Trusted: TLC; two property names, lists up to 5 values, depth 4 for the exhaustive part; text values are never passed as NumPy arrays; len(section) follows the code (number of properties).",
         design_ref="6/C10"),
     "C13": dict(
         engine="NixModel",
